@@ -302,6 +302,9 @@ class Vec:
         """calls the rule's hook does not know: lookups in constant tables of the module and calls to *expression helpers* (module-level functions /
         static methods whose body is `[t = <expr>;]* return <expr>` over their parameters) are evaluated in place"""
         f = e.func
+        if isinstance(f, ast.Name) and f.id == "divmod" and len(e.args) == 2 and not e.keywords:
+            a_, b_ = self.eval(e.args[0], mask), self.eval(e.args[1], mask)
+            return [self.binop(ast.FloorDiv(), a_, b_), self.binop(ast.Mod(), a_, b_)]
         if isinstance(f, ast.Attribute) and f.attr == "get" and 1 <= len(e.args) <= 2 and not e.keywords:
             ok, tab = self.res.const(f.value)
             if not ok and isinstance(f.value, ast.Name) and f.value.id.startswith("_"):
